@@ -15,12 +15,14 @@
 (* `groups' of a case selects which properties' clauses are evaluated:     *)
 (*   "template" (C07)  "solve" (C01, C05)  "c02"  "c03"  "c06"  "c13"      *)
 (***************************************************************************)
-EXTENDS Pipeline, Json, IOUtils
+EXTENDS Pipeline, Solve, Json, IOUtils
 
 Cases == JsonDeserialize(IOEnv.CASES)
 
-VARIABLES cid, pc, l, t, Vs, verdict, exact, nrows, nskip, diag
-vars == <<cid, pc, l, t, Vs, verdict, exact, nrows, nskip, diag>>
+VARIABLES cid, pc, l, t, Vs, verdict, exact, nrows, nskip, diag, Ci
+vars == <<cid, pc, l, t, Vs, verdict, exact, nrows, nskip, diag, Ci>>
+\*   Ci   (cases with `diag_ccv') the implementation-shaped conditional continuation values and value arrays of
+\*        module Solve per period, <<ccv, V>> chronological: for step localisation against the solve_period hook events
 
 C      == Cases[cid]
 M      == C.mdl
@@ -34,7 +36,7 @@ Fail(clause, detail) == <<"FAIL", clause, detail>>
 Init ==
   /\ cid \in 1..Len(Cases)
   /\ pc = "scope" /\ l = 1 /\ t = 0 /\ Vs = <<>> /\ verdict = <<"run">> /\ exact = TRUE
-  /\ nrows = 0 /\ nskip = 0 /\ diag = <<>>
+  /\ nrows = 0 /\ nskip = 0 /\ diag = <<>> /\ Ci = <<>>
 
 (* ------------------------------------------------------------ scope *)
 TrScope ==
@@ -42,12 +44,16 @@ TrScope ==
   /\ LET why == StaticScope(M)
      IN IF why # "" THEN verdict' = <<"SKIP", why>> /\ pc' = "done" /\ t' = 0
         ELSE verdict' = verdict /\ pc' = (IF NeedV THEN "spec" ELSE "events") /\ t' = M.T
-  /\ UNCHANGED <<cid, l, Vs, exact, nrows, nskip, diag>>
+  /\ UNCHANGED <<cid, l, Vs, exact, nrows, nskip, diag, Ci>>
 
 (* ------------------------------------------------------------ the specification's own solution *)
 TrSpecSolve ==
   /\ Running /\ pc = "spec" /\ t > 0
   /\ Vs' = SolveStep(M, t, Vs)
+  /\ Ci' = IF C.diag_ccv
+           THEN LET ccv == TLCEval(SolveContinuous(M, t - 1, IF Ci = <<>> THEN <<>> ELSE Ci[1][2]))
+                IN <<<<ccv, TLCEval(SolveDiscrete(M, t - 1, ccv))>>>> \o Ci
+           ELSE Ci
   /\ t' = t - 1
   /\ LET why == ScopeOfV(M, Vs'[1])
      IN IF why # "" THEN verdict' = <<"SKIP", why>> /\ pc' = "done"
@@ -106,14 +112,26 @@ SolveFail(ev) ==
                   ToString(<<"period", p, "entry", k - 1, "spec", SpecFlat(p)[k], "obs", ev.V[p + 1][k]>>))
   ELSE <<"run">>
 SolveExact(ev) == \A p \in 0..M.T - 1 : ev.V[p + 1] = SpecFlat(p)
+\* diagnostic: the recorded intermediate arrays of the backward loop against the implementation-shaped machine
+CcvKeys(p) ==
+  LET nr == IF HasSparse(M) THEN Len(Rows(M, p)) ELSE 0
+      dense == Prod(SizesOf(DenseAxes(M)))
+  IN IF HasSparse(M) THEN FlattenSeq([r \in 1..nr |-> [k \in DOMAIN dense |-> <<r - 1>> \o dense[k]]]) ELSE dense
+CcvDiag(ev) ==
+  IF ~C.diag_ccv \/ Len(ev.ccv) # M.T THEN <<>>
+  ELSE LET bad == {p \in 0..M.T - 1 :
+                     \/ Len(ev.ccv[p + 1]) # Len(CcvKeys(p))
+                     \/ \E k \in DOMAIN CcvKeys(p) : ~Close(Ci[p + 1][1][CcvKeys(p)[k]], ev.ccv[p + 1][k], Tol)}
+       IN IF bad = {} THEN <<"ccv-steps-agree">> ELSE <<"ccv-step-differs">>
 TrSolve ==
   /\ Running /\ pc = "events" /\ l <= Len(C.events) /\ Ev.e = "solve"
   /\ IF Grp("solve")
      THEN /\ verdict' = SolveFail(Ev)
           /\ exact' = (exact /\ verdict'[1] = "run" /\ SolveExact(Ev))
      ELSE UNCHANGED <<verdict, exact>>
+  /\ diag' = diag \o CcvDiag(Ev)
   /\ l' = l + 1
-  /\ UNCHANGED <<cid, pc, t, Vs, nrows, nskip, diag>>
+  /\ UNCHANGED <<cid, pc, t, Vs, nrows, nskip, Ci>>
 
 (* ------------------------------------------------------------ simulate: the frame (C13) *)
 SimN(ev) == ev.N
@@ -134,7 +152,7 @@ TrSimFrame ==
   /\ Running /\ pc = "events" /\ l <= Len(C.events) /\ Ev.e = "simulate"
   /\ verdict' = FrameFail(Ev)
   /\ pc' = "sim" /\ t' = 0
-  /\ UNCHANGED <<cid, l, Vs, exact, nrows, nskip, diag>>
+  /\ UNCHANGED <<cid, l, Vs, exact, nrows, nskip, diag, Ci>>
 
 (* ------------------------------------------------------------ simulate: one period *)
 RowAt(ev, p, i) == ev.rows[p * ev.N + i]
@@ -222,7 +240,7 @@ TrRel ==
   /\ Running /\ pc = "events" /\ l <= Len(C.events) /\ Ev.e \in {"rel-solve", "rel-sim"}
   /\ verdict' = (IF Ev.e = "rel-solve" THEN RelSolveFail(Ev) ELSE RelSimFail(Ev))
   /\ l' = l + 1
-  /\ UNCHANGED <<cid, pc, t, Vs, exact, nrows, nskip, diag>>
+  /\ UNCHANGED <<cid, pc, t, Vs, exact, nrows, nskip, diag, Ci>>
 
 (* ------------------------------------------------------------ exceptions *)
 \* an exception raised by lcm on an accepted, in-scope model: the call did not deliver
@@ -230,13 +248,13 @@ TrError ==
   /\ Running /\ pc = "events" /\ l <= Len(C.events) /\ Ev.e = "error"
   /\ verdict' = Fail("crash", ToString(<<Ev.op, Ev.cls, Ev.msg>>))
   /\ l' = l + 1
-  /\ UNCHANGED <<cid, pc, t, Vs, exact, nrows, nskip, diag>>
+  /\ UNCHANGED <<cid, pc, t, Vs, exact, nrows, nskip, diag, Ci>>
 
 (* ------------------------------------------------------------ end of trace *)
 TrDone ==
   /\ Running /\ pc = "events" /\ l > Len(C.events)
   /\ verdict' = <<"ok">> /\ pc' = "done"
-  /\ UNCHANGED <<cid, l, t, Vs, exact, nrows, nskip, diag>>
+  /\ UNCHANGED <<cid, l, t, Vs, exact, nrows, nskip, diag, Ci>>
 
 Next == TrScope \/ TrSpecSolve \/ TrError \/ TrTemplate \/ TrSolve \/ TrSimFrame \/ TrSimPeriod \/ TrRel \/ TrDone
 Spec == Init /\ [][Next]_vars
